@@ -1,0 +1,18 @@
+//go:build verif
+
+package dnsclient
+
+//@ # ---- C07: a reply is handed to the resolver only if its ID equals the query's ID and its question section is
+//@ # exactly the one outstanding question (type, class, name up to case)
+//@ pred qMatch(req dns.Question, resp []dns.Question) := len(resp) == 1 && resp[0].Qtype == req.Qtype && resp[0].Qclass == req.Qclass && canon(resp[0].Name) == canon(req.Name)
+//@
+//@ func QuestionMatches
+//@   modifies nothing
+//@   ensures result == qMatch(req, resp)
+//@
+//@ func (*Conn).Exchange
+//@   requires co != nil && m != nil
+//@   nosafety nil ovf
+//@   loop 1 invariant true
+//@   ensures err == nil ==> r.Id == m.Id
+//@   ensures err == nil && len(m.Question) > 0 ==> qMatch(m.Question[0], r.Question)
